@@ -64,7 +64,7 @@ LitDom(p) == UNION {Near(c) : c \in {c \in UNION {LitsS(Stmts(p)[i]) : i \in DOM
 \* a record may carry its own domain (histories use trimmed domains: thresholds +-1, a negative, MaxI)
 FullDomT == [p \in PIDs |-> IF "dom" \in DOMAIN Recs[p] THEN SeqSet(Recs[p].dom) ELSE BaseB \cup LitDom(p)]
 RECURSIVE IPow(_, _)
-IPow(b, e) == IF e = 0 THEN 1 ELSE IF b > 100000 THEN b ELSE b * IPow(b, e - 1)
+IPow(b, e) == IF e = 0 THEN 1 ELSE LET r == IPow(b, e - 1) IN IF r > 1000000 THEN r ELSE b * r     \* saturating
 SubSize(d, k) == LET S == {m \in 1..d : IPow(m, k) <= DomCap} IN IF S = {} THEN 1 ELSE Max(S)
 SortedT == [p \in PIDs |-> SetToSortSeq(FullDomT[p], <)]
 \* when |D|^k exceeds DomCap every input gets a Seed-rotated subset (always a subset of the full domain)
@@ -272,6 +272,15 @@ CheckPlaces(p, k) ==
           (\E i \in DOMAIN X : e \in EntAt(u, X[i]))
           \/ Fail(p, "C09_extra", [unit |-> k, name |-> Ents(u)[e].name, x2 |-> Ents(u)[e].position.x.f2, y2 |-> Ents(u)[e].position.y.f2])
 ASSUME \A p \in PIDs : \A k \in DOMAIN UnitsOf(p) : (~Active("C09_bag")) \/ ~WiresOK(UnitsOf(p)[k]) \/ CheckPlaces(p, k)
+
+(* C13, static part: the signal the compiler chose for an untyped value is never reserved, a wildcard, or a signal the    *)
+(* program names explicitly (ExplicitOf: computed from the AST).                                                          *)
+CheckFresh(p, k) ==
+  LET u == UnitsOf(p)[k]  ss == StmtsOf(p, k)  ex == ExplicitOf(ss) IN
+  \A i \in {i \in DOMAIN ss : IsUntyped(ss[i]) /\ ss[i].k \in {"in", "let"}} :
+     \A e \in {e \in Ids(u) : KindT[u][e] = "C" /\ Len(FilterSeq(u, e)) > 0 /\ Desc(u, e).var = ss[i].n /\ Desc(u, e).role \in {"input", "const"}} :
+        (InSig(u, e) \notin ex \cup Reserved) \/ Fail(p, "C13_fresh", [unit |-> k, name |-> ss[i].n, chosen |-> InSig(u, e), explicit |-> ex])
+ASSUME \A p \in PIDs : \A k \in DOMAIN UnitsOf(p) : ~Active("C13_fresh") \/ ~WiresOK(UnitsOf(p)[k]) \/ CheckFresh(p, k)
 
 (* C11_range: every constant placed in an accepted blueprint is a signed 32-bit value (the encoder reports the others) *)
 ASSUME \A p \in PIDs : \A k \in DOMAIN UnitsOf(p) :
